@@ -32,18 +32,68 @@ open EditM
 
 /-! ### lookups (pure) -/
 
+/-- How a lookup compares the name token of a binding with the key it looks for. The edit code has
+    two comparisons: `NameCmp.nix` (`_same_attr_name`: bare and quoted spellings of one Nix name are
+    the same name) in `cli/manipulations.py` and `AttributeSet.__*item__`, and `NameCmp.spelled`
+    (`item.name == key`) in `Scope.get_binding` and the `let_bindings` scans. The definitions below
+    take the comparison as an instance argument; `NameCmp.model` is the code as it is. -/
+class NameCmp where
+  same : Text → Text → Bool
+
+/-- comparison by spelling (`==`) -/
+@[reducible] def NameCmp.spelled : NameCmp := ⟨fun a b => a == b⟩
+/-- `_same_attr_name` -/
+@[reducible] def NameCmp.nix : NameCmp := ⟨sameName⟩
+/-- the comparison `_find_binding` & co. use in the source now -/
+@[reducible] def NameCmp.model : NameCmp := NameCmp.nix
+
+/-- `isinstance(n, Binding) and same(n.name, key)` -/
+def nameIs [NameCmp] (n : Node) (key : Text) : Bool :=
+  match n.bindName? with
+  | some nm => NameCmp.same nm key
+  | none => false
+
+@[simp] theorem nameIs_spelled (n : Node) (key : Text) :
+    @nameIs NameCmp.spelled n key = (n.bindName? == some key) := by
+  unfold nameIs
+  cases h : n.bindName? with
+  | none => simp
+  | some nm => simp [NameCmp.same]
+
+section
+variable [NameCmp]
+
 /-- `_find_binding(target_set, key)` / the `for binding in self.values` loops: first Binding named `key` -/
 def findBinding (vs : List Node) (key : Text) : Option Node :=
-  vs.find? fun n => n.isBind && n.bindName? == some key
+  vs.find? fun n => n.isBind && nameIs n key
 
 /-- `_find_named_binding(values, key, nested=…)` -/
 def findNamedBinding (vs : List Node) (key : Text) (nested : Option Bool) : Option Node :=
-  vs.find? fun n => n.isBind && n.bindName? == some key &&
+  vs.find? fun n => n.isBind && nameIs n key &&
     (match nested with | none => true | some b => n.bindNested == b)
 
 /-- `_find_attrpath_root` -/
 def findAttrpathRoot (vs : List Node) (root : Text) : Option Node :=
-  vs.find? fun n => n.isBind && n.bindNested && n.bindName? == some root
+  vs.find? fun n => n.isBind && n.bindNested && nameIs n root
+
+omit [NameCmp] in
+/-- the three lookups with the comparison by spelling, as they read before `_same_attr_name` -/
+theorem findBinding_spelled (vs : List Node) (key : Text) :
+    @findBinding NameCmp.spelled vs key = vs.find? fun n => n.isBind && n.bindName? == some key := by
+  unfold findBinding; simp only [nameIs_spelled]
+
+omit [NameCmp] in
+theorem findNamedBinding_spelled (vs : List Node) (key : Text) (nested : Option Bool) :
+    @findNamedBinding NameCmp.spelled vs key nested =
+      vs.find? fun n => n.isBind && n.bindName? == some key &&
+        (match nested with | none => true | some b => n.bindNested == b) := by
+  unfold findNamedBinding; simp only [nameIs_spelled]
+
+omit [NameCmp] in
+theorem findAttrpathRoot_spelled (vs : List Node) (root : Text) :
+    @findAttrpathRoot NameCmp.spelled vs root =
+      vs.find? fun n => n.isBind && n.bindNested && n.bindName? == some root := by
+  unfold findAttrpathRoot; simp only [nameIs_spelled]
 
 /-- does an `Inherit` of this set mention `key`? (`AttributeSet.__getitem__`, second branch) -/
 def inheritMentions (vs : List Node) (key : Text) : Bool :=
@@ -180,15 +230,15 @@ def setDelItem (s : Node) (key : Text) : EditM Unit :=
 
 /-! ### `Scope.__getitem__` / `__setitem__` / `__delitem__` on `target.scope` -/
 
-/-- `scope[key]` -/
+/-- `scope[key]` (`Scope.get_binding` compares spellings) -/
 def scopeGetItem (d : Doc) (key : Text) : Except Err Node :=
-  match findBinding d.scope key with
+  match @findBinding NameCmp.spelled d.scope key with
   | some b => match b.bindValue? with | some v => .ok v | none => .error .key
   | none => .error .key
 
 /-- `scope[key] = value`: `_attrpath_order()` is `owner.scope_state.attrpath_order or None` -/
 def scopeSetItem (key : Text) (v : Node) : EditM Unit := fun d =>
-  match findBinding d.scope key with
+  match @findBinding NameCmp.spelled d.scope key with
   | some b => match b.bindId? with
     | some bid => assign bid v d
     | none => (.ok (), d)
@@ -200,7 +250,7 @@ def scopeSetItem (key : Text) (v : Node) : EditM Unit := fun d =>
 
 /-- `del scope[key]`: the order item is removed when it is the binding or an entry holding it -/
 def scopeDelItem (key : Text) : EditM Unit := fun d =>
-  match findBinding d.scope key with
+  match @findBinding NameCmp.spelled d.scope key with
   | none => (.error .key, d)
   | some b => match b.bindId? with
     | none => (.ok (), d)
@@ -340,7 +390,7 @@ def stripQuotes (nm : Text) : Text :=
 def scanChain (name : Text) : List (List Node) → Option (Node × List (List Node))
   | [] => none
   | scope :: outer =>
-    let hit := match findBinding scope name with
+    let hit := match @findBinding NameCmp.spelled scope name with
       | some b => some b
       | none => scope.find? fun n => n.isBind &&
           (match n.bindName? with | some nm => stripQuotes nm == name | none => false)
@@ -658,5 +708,7 @@ def removeValue (npath : Text) : EditM Unit := fun d =>
                 match segs.getLast? with
                 | none => throw (.internal "IndexError")
                 | some finalKey => setDelItem parent finalKey) d
+
+end
 
 end Nima
